@@ -301,6 +301,9 @@ class Run:
         self._seen = set()
         self.extra = {}
         self.broken = []           # broken obligations / correspondences (names)
+        ensure_dirs()
+        for f in glob.glob(os.path.join(ROOT, 'replays', '%s_%s_*' % (prop, tier))):
+            os.remove(f)
 
     # counting
     def count(self, case_key, nontrivial):
